@@ -225,6 +225,20 @@ func c01Leaf(c *Ctx) {
 			c.Fail(name, pos, fmt.Sprintf("the user function is invoked %d times on a path (expected exactly once)", len(calls)), pathTrace(ev, p))
 			continue
 		}
+		// the execution handed to the user function is a private copy (or none at all)
+		if len(calls[0].Args) != 1 {
+			ok = false
+			c.Fail(name, pos, "the user function must receive exactly one execution argument", pathTrace(ev, p))
+			continue
+		}
+		if ua := calls[0].Args[0]; !ua.IsNilConst() {
+			cp := eventsWhere(p, func(e *Event) bool { return isCall(e, "copy") && e.Recv == exec && len(e.Res) == 1 && e.Res[0] == ua })
+			if len(cp) != 1 {
+				ok = false
+				c.Fail(name, pos, "the user function receives the live, lock-protected execution instead of a private copy (execInternal.copy()): its LastResult/LastError are rewritten when a Timeout cancels the attempt, so a function that is still running would observe another attempt's outcome and race with Cancel", pathTrace(ev, p))
+				continue
+			}
+		}
 		if len(recs) != 1 || recs[0].Idx < calls[0].Idx || recs[0].Recv != exec {
 			ok = false
 			c.Fail(name, pos, "record() is not called exactly once on the execution after the user function returned", pathTrace(ev, p))
